@@ -67,11 +67,20 @@ def lagging_snap(m, w, k=1, j=2, lag=None, leader=N1):
     return w
 
 
-def deposed(m, w, k=1, tail=2, newk=1, old=N1, new=N2):
+def blackhole(m, w, nid):
+    """The peers of `nid` notice a drop, `nid` itself does not: it still believes it is connected
+    while everything it sends is lost."""
+    for n, _ in w.nodes:
+        if n != nid and nid in m.summary(w, n).connected:
+            w = m.do(w, ('X', n, nid, 'free'))
+    return w
+
+
+def deposed(m, w, k=1, tail=2, newk=1, old=N1, new=N2, black=False):
     """Old leader isolated with an uncommitted tail; the rest elected `new` and committed
-    different entries. All links of `old` are down."""
+    different entries. All links of `old` are down (black=True: only the peers noticed)."""
     w = steady(m, w, k, old)
-    w = m.isolate(w, old)
+    w = blackhole(m, w, old) if black else m.isolate(w, old)
     for _ in range(tail):
         w = m.do(w, ('S', old, 'free'))
         w = m.do(w, ('Z', old))
@@ -130,18 +139,34 @@ def forwarded(m, w, k=0, leader=N1, via=N2):
 
 
 def fig8(m, w):
-    """Raft figure 8 prefix (3 of 5 nodes or 2 of 3): an entry of an old term sits on a
-    majority without being committed, while another node holds a newer-term entry."""
-    # n1 leader term 1, appends x, replicates to n2 only; n3 cut.
+    """Raft figure 8 prefix on 3 nodes. a=n1 led term 1 and holds X (index 3) that nobody else has;
+    c=n3 led term 2 and holds its no-op (3) and Y (4) that nobody else has and is a follower again;
+    b=n2 holds neither. a has just been re-elected (by b) and its next index for b has been reset to
+    3, so its next heartbeat sends X (old term) and its own no-op. With a small batch size they
+    travel in separate messages. Links: a-b up, everything to c down."""
+    a, b, c = N1, N2, N3
     w = m.connect_all(w)
-    w = elect(m, w, N1)
-    w = beat(m, w, N1, times=2)
-    w = m.isolate(w, N3)
-    w = m.do(w, ('S', N1, 'free'), ('Z', N1))
-    w = m.do(w, ('T', N1, m.cfg.period + 0.001))
-    # deliver the append to n2 but drop the ack: cut n1 before it hears back
-    w = m.do(w, ('D', N1, N2))
-    w = m.cut(w, N1, N2)
+    w = elect(m, w, a)
+    w = beat(m, w, a, times=2)
+    # a alone appends X
+    w = m.isolate(w, a)
+    w = m.do(w, ('S', a, 'free'), ('Z', a))
+    # c is elected by b in term 2 and cut off before its no-op reaches b; appends Y alone
+    w = m.do(w, ('T', c, m.cfg.tmin + 0.001))
+    w = m.do(w, ('D', c, b), ('D', b, c))
+    w = m.cut(w, c, b)
+    w = m.do(w, ('S', c, 'free'), ('Z', c))
+    # a and c both get connected to b again; b times out (term 3): a and c step down, neither votes for b
+    w = m.do(w, ('R', b, c, 'free'), ('D', c, b))
+    w = m.do(w, ('R', a, b, 'free'), ('D', b, a))
+    w = m.do(w, ('T', b, m.cfg.tmin + 0.001))
+    w = m.do(w, ('D', b, c), ('D', b, a))
+    w = m.cut(w, b, c)
+    # a times out (term 4) and is elected by b
+    w = m.do(w, ('T', a, m.cfg.tmin + 0.001))
+    w = m.drain(w, only=[a, b], ticks=False)
+    if not m.summary(w, a).leader_flag or m.summary(w, c).leader_flag or m.summary(w, b).last != 2:
+        m.seed_shape_ok = False
     return w
 
 
@@ -170,7 +195,68 @@ def version_snap(m, w, leader=N1, ver=1, lag=None, do_compact=True):
     return w
 
 
-SEEDS = dict(voted=voted, version_snap=version_snap, fresh=fresh, steady=steady, lagging=lagging, lagging_snap=lagging_snap, deposed=deposed,
+def ahead(m, w, k=1, unrep=4, lag=None, leader=N1):
+    """The leader kept sending to `lag` over a connection that was already dead (only `lag` had
+    noticed), so its next index for `lag` ran ahead of `lag`'s log; then it noticed and the
+    connection is up again."""
+    lag = lag or addr(m.cfg.n)
+    w = steady(m, w, k, leader)
+    for n, _ in w.nodes:
+        if n != lag and n in m.summary(w, lag).connected:
+            w = m.do(w, ('X', lag, n, 'free'))
+    others = [n for n, _ in w.nodes if n != lag]
+    w = submit(m, w, leader, unrep, only=others)
+    for n in others:
+        if lag in m.summary(w, n).connected:
+            w = m.do(w, ('X', n, lag, 'free'))
+    w = m.do(w, ('R', leader, lag, 'free'))
+    w = m.drain(w, only=[leader, lag], ticks=False)
+    return w
+
+
+def lagging_newleader(m, w, k=1, j=2, lag=None, leader=N1, new=N2):
+    """`lag` was cut off before the last j entries AND before a leader change: it will learn the
+    new term from an append_entries whose previous entry it does not have."""
+    w = lagging(m, w, k, j, lag, leader)
+    lag = lag or addr(m.cfg.n)
+    rest = [n for n, _ in w.nodes if n != lag]
+    w = elect(m, w, new, only=rest)
+    w = beat(m, w, new, only=rest, times=2)
+    return w
+
+
+def m_deposed(m, w, old=N1, new=N2, victim=N3, unnoticed=False):
+    """Membership variant of `deposed`: the cut-off old leader has appended an uncommitted
+    'remove victim' (exactly one entry), the others elected `new` and committed a command."""
+    w = steady(m, w, 0, old)
+    if unnoticed:
+        # only `old` notices the drop: the others keep sending into the void, so the new leader's
+        # next index for `old` runs ahead of `old`'s log
+        for n, _ in w.nodes:
+            if n != old and n in m.summary(w, old).connected:
+                w = m.do(w, ('X', old, n, 'free'))
+    else:
+        w = m.isolate(w, old)
+    w = m.do(w, ('M', old, 'rem', victim, 'api', 'free'), ('Z', old))
+    rest = [n for n, _ in w.nodes if n != old and m.summary(w, n).alive]
+    w = elect(m, w, new, only=rest)
+    w = beat(m, w, new, only=rest, times=2)
+    w = submit(m, w, new, 1, only=rest)
+    return w
+
+
+def split(m, w, k=0, leader=N1):
+    """Even cluster cut into two halves (low ids | high ids), all links between them down."""
+    w = steady(m, w, k, leader)
+    ids = [n for n, _ in w.nodes if not n.startswith('o')]
+    half = len(ids) // 2
+    for a in ids[:half]:
+        for b in ids[half:]:
+            w = m.cut(w, a, b)
+    return w
+
+
+SEEDS = dict(voted=voted, ahead=ahead, lagging_newleader=lagging_newleader, m_deposed=m_deposed, split=split, version_snap=version_snap, fresh=fresh, steady=steady, lagging=lagging, lagging_snap=lagging_snap, deposed=deposed,
              deposed_snap=deposed_snap, deposed_twice=deposed_twice, pending=pending, reconnect_pipeline=reconnect_pipeline,
              forwarded=forwarded, fig8=fig8)
 
